@@ -57,6 +57,7 @@ type Term struct {
 	F     float64 // FP const
 	S     string  // Str const / var name / indexed-op parameter
 	Emit  int     // solver generation in which it was emitted (per solver)
+	HasFP bool    // a floating-point operation occurs in the term's DAG
 }
 
 func (t *Term) IsConst() bool { return t.Const }
@@ -154,7 +155,15 @@ func (c *TermCtx) mk(op string, s Sort, param string, args ...*Term) *Term {
 		sb.WriteByte(',')
 		sb.WriteString(strconv.Itoa(a.ID))
 	}
-	return c.intern(sb.String(), func() *Term { return &Term{Op: op, Sort: s, Args: args, S: param} })
+	return c.intern(sb.String(), func() *Term {
+		t := &Term{Op: op, Sort: s, Args: args, S: param, HasFP: s.K == SFP}
+		for _, a := range args {
+			if a.HasFP || a.Sort.K == SFP {
+				t.HasFP = true
+			}
+		}
+		return t
+	})
 }
 
 func signExt(v uint64, w int) int64 {
@@ -400,47 +409,9 @@ func (c *TermCtx) bvBin(op string, a, b *Term) *Term {
 	}
 	switch op {
 	case "bvadd":
-		if a.Const && a.U == 0 {
-			return b
-		}
-		if b.Const && b.U == 0 {
-			return a
-		}
-		// AC normalisation: flatten and sort
-		var leaves []*Term
-		var cst uint64
-		var fl func(t *Term)
-		fl = func(t *Term) {
-			if t.Op == "bvadd" {
-				for _, x := range t.Args {
-					fl(x)
-				}
-			} else if t.Const {
-				cst += t.U
-			} else {
-				leaves = append(leaves, t)
-			}
-		}
-		fl(a)
-		fl(b)
-		sort.Slice(leaves, func(i, j int) bool { return leaves[i].ID < leaves[j].ID })
-		if cst&mask(w) != 0 {
-			leaves = append(leaves, c.BV(w, cst))
-		}
-		if len(leaves) == 0 {
-			return c.BV(w, 0)
-		}
-		if len(leaves) == 1 {
-			return leaves[0]
-		}
-		return c.mk("bvadd", a.Sort, "", leaves...)
+		return c.linear(a, 1, b, 1)
 	case "bvsub":
-		if b.Const && b.U == 0 {
-			return a
-		}
-		if a == b {
-			return c.BV(w, 0)
-		}
+		return c.linear(a, 1, b, ^uint64(0))
 	case "bvmul":
 		if a.Const {
 			a, b = b, a
@@ -464,6 +435,68 @@ func (c *TermCtx) bvBin(op string, a, b *Term) *Term {
 		}
 	}
 	return c.mk(op, a.Sort, "", a, b)
+}
+
+// linear builds ca*a + cb*b in canonical form: a sorted sum of distinct non-constant leaves with
+// constant coefficients plus a constant (arithmetic modulo 2^w is a commutative ring, so the
+// normalisation is exact). It makes x - (x - y) syntactically equal to y.
+func (c *TermCtx) linear(a *Term, ca uint64, b *Term, cb uint64) *Term {
+	w := a.Sort.W
+	m := mask(w)
+	coef := map[*Term]uint64{}
+	var order []*Term
+	var k uint64
+	var walk func(t *Term, f uint64)
+	walk = func(t *Term, f uint64) {
+		f &= m
+		if f == 0 {
+			return
+		}
+		switch {
+		case t.Const:
+			k += f * t.U
+		case t.Op == "bvadd":
+			for _, x := range t.Args {
+				walk(x, f)
+			}
+		case t.Op == "bvneg":
+			walk(t.Args[0], (^f+1)&m)
+		case t.Op == "bvmul" && t.Args[1].Const:
+			walk(t.Args[0], f*t.Args[1].U)
+		default:
+			if _, ok := coef[t]; !ok {
+				order = append(order, t)
+			}
+			coef[t] = (coef[t] + f) & m
+		}
+	}
+	walk(a, ca)
+	walk(b, cb)
+	k &= m
+	var leaves []*Term
+	sort.Slice(order, func(i, j int) bool { return order[i].ID < order[j].ID })
+	for _, t := range order {
+		f := coef[t]
+		switch {
+		case f == 0:
+		case f == 1:
+			leaves = append(leaves, t)
+		case f == m:
+			leaves = append(leaves, c.mk("bvneg", t.Sort, "", t))
+		default:
+			leaves = append(leaves, c.mk("bvmul", t.Sort, "", t, c.BV(w, f)))
+		}
+	}
+	if k != 0 {
+		leaves = append(leaves, c.BV(w, k))
+	}
+	if len(leaves) == 0 {
+		return c.BV(w, 0)
+	}
+	if len(leaves) == 1 {
+		return leaves[0]
+	}
+	return c.mk("bvadd", a.Sort, "", leaves...)
 }
 
 func (c *TermCtx) Add(a, b *Term) *Term { return c.bvBin("bvadd", a, b) }
